@@ -225,6 +225,10 @@ class Tracker:
         st = ("fut", tuple(steps), False) if is_future else self._mk_val(steps)
         self.states.setdefault(local, set()).add(st)
 
+    def seed_discr(self, local, steps):
+        """`local` holds discriminant(value) of a value whose accepting shape is `steps`"""
+        self.states.setdefault(local, set()).add(("discr", self._mk_val(steps), False))
+
     def seed_bool(self, local, true_is_accept=True):
         self.states.setdefault(local, set()).add(("bool", (), not true_is_accept))
 
